@@ -833,6 +833,13 @@ func (ev *Eval) call(e *Expr) *Value {
 			}
 		}
 		return scalar(types.Typ[types.String], App("sprintf!"+e.Args[0].Name+sortSig(args), SStr, args...))
+	case "fresh":
+		// fresh(p): the object p points to was allocated during this execution of the function under verification
+		x := ev.eval(e.Args[0])
+		if x.L[0] == nil {
+			ev.fail("fresh of a local address")
+		}
+		return scalar(specBool, Gt(x.L[0], Const("wm0", SInt)))
 	case "payload":
 		// payload(x): the data word of an interface value (the pointer itself when the dynamic type is a pointer)
 		x := ev.eval(e.Args[0])
@@ -884,14 +891,27 @@ func (ev *Eval) call(e *Expr) *Value {
 			for _, a := range e.Args[1:] {
 				args = append(args, ev.eval(a))
 			}
-			st := ev.state().clone()
+			base := ev.state()
+			idMark := TS.nextID
+			st := base.clone()
 			if st.frame == nil {
 				st.frame = &Frame{fn: m, regs: map[ssa.Value]*Value{}}
 			}
 			ev.v.suppressObs++
+			ev.v.noFork++
 			res := ev.v.inline(st, m, args, nil, m.Pos())
+			ev.v.noFork--
 			ev.v.suppressObs--
 			if res != nil && !st.dead {
+				// facts the scratch execution learned about the fresh symbols in the result (callee contracts) are kept
+				if len(st.pc) > len(base.pc) {
+					for _, c := range st.pc[len(base.pc):] {
+						// only facts that define symbols created by the scratch run (never assumptions about existing state)
+						if mentionsNewConst(c, idMark) {
+							ev.st.assume(c)
+						}
+					}
+				}
 				return res
 			}
 		}
@@ -1158,4 +1178,26 @@ func (ev *Eval) assignGhost(lhs *Expr, val *Value) {
 		}
 	}
 	ev.fail("ghost assignment target %q is not a ghost variable or ghost field", lhs.Text)
+}
+
+
+func mentionsNewConst(t *Term, mark int) bool {
+	seen := map[int]bool{}
+	var rec func(t *Term) bool
+	rec = func(t *Term) bool {
+		if seen[t.id] {
+			return false
+		}
+		seen[t.id] = true
+		if t.op == "const" && t.id > mark {
+			return true
+		}
+		for _, a := range t.args {
+			if rec(a) {
+				return true
+			}
+		}
+		return false
+	}
+	return rec(t)
 }
